@@ -85,6 +85,15 @@ def specs_for(tier, seed):
     for i in range(n_sets):
         n = 1 + (i % 8)
         add(simple_cert("set%d" % i, ids=ident_set(rng, n), key_type="ecdsa_p256"), meta={"family": "identifier set", "n": n})
+    # a wildcard together with names it "covers" (apex, one label below, two labels below, an IDN sibling): every configured name is
+    # in the order and in the CSR, whatever a CA might think of the redundancy
+    zone = "wild.example.org"
+    for k, names in enumerate(([("*." + zone), zone, "www." + zone, "a.b." + zone],
+                               ["WWW." + zone.title(), "*." + zone.upper(), "b\u00fccher." + zone],
+                               ["*." + zone, "www." + zone])):
+        canon = lambda n: ".".join((a_label(l) if any(ord(ch) > 127 for ch in l) else l.lower()) for l in n.split("."))
+        ids = [{"dns": n, "canon": canon(n), "challenge": "dns-01" if n.startswith("*") else "http-01"} for n in names]
+        add(simple_cert("wild%d" % k, ids=ids, key_type="ecdsa_p256"), meta={"family": "wildcard with names it covers", "names": names})
     # every IP of the table in one certificate, once per written variant (IPv4 next to the IPv6 addresses that embed it)
     for k in range(4 if tier == "thorough" else 2):
         v = k if tier == "thorough" else (k * 2 + seed) % 4
@@ -136,7 +145,7 @@ def run(ctx):
            "model_fidelity": {"all_labels_clean": not fb, "bad": [({k: v for k, v in results[i]["meta"].items() if k not in ("flow", "hook_types")}, l) for i, l, _ in fb[:5]]},
            "exhaustive": False,
            "rule": "identifier sets of 1..8 entries drawn from canonical forms (A-labels from python's punycode codec, wildcards, IPv4, IPv6) and written "
-                   "in accepted variants (case, U-labels, expanded/upper-case IPv6); every IP of the table (IPv4, IPv4-mapped/-compatible, NAT64, 6to4, "
+                   "in accepted variants (case, U-labels, expanded/upper-case IPv6); a wildcard together with names it covers; every IP of the table (IPv4, IPv4-mapped/-compatible, NAT64, 6to4, "
                    "loopback, link-local) together in one certificate per variant; 7 key types x digests; each subject attribute alone, all 15, random "
                    "subsets; kp_reuse x {no key, usable key, unusable key, usable key of another type than configured}"}
     return {"coverage": cov, "assumptions": [
